@@ -386,11 +386,11 @@ func (p *Prog) callEffects(fi *FuncInfo, info *types.Info, call *ast.CallExpr, e
 				e.Ghost[cat] = true
 			}
 		}
-		if strings.HasSuffix(full, "opa/rego.Rego.PrepareForEval") || strings.HasSuffix(full, "opa/rego.PreparedEvalQuery.Eval") {
-			e.Ghost["opa"] = true
+		if strings.HasSuffix(full, "opa/rego.Rego.PrepareForEval") {
+			e.Ghost["opa"] = true // compiling may set the rejected flag, never the evaluated one
 		}
 		if strings.HasSuffix(full, "opa/rego.PreparedEvalQuery.Eval") {
-			e.Ghost["opaeval"] = true // only an evaluation sets the evaluated flag (compiling does not)
+			e.Ghost["opaeval"] = true // an evaluation sets the evaluated flag, never the rejected one
 		}
 		if strings.HasSuffix(full, "json-gold/ld.JsonLdProcessor.Flatten") {
 			e.Ghost["ld"] = true
@@ -417,6 +417,11 @@ func (p *Prog) callEffects(fi *FuncInfo, info *types.Info, call *ast.CallExpr, e
 					e.Nondet[id] = full + " prints the address held in " + exprString(a) + " (" + t.String() + ") at " + p.pos(call)
 				}
 			}
+		}
+		switch full {
+		case "context.WithTimeout", "context.WithDeadline", "time.After", "time.NewTimer", "time.AfterFunc", "time.Since", "time.Until", "time.Tick", "time.NewTicker", "time.Sleep":
+			// a result that depends on how long something took (a deadline on the evaluation, a measured duration)
+			e.Nondet["deadline:"+fi.Name] = full + " at " + p.pos(call)
 		}
 		if strings.HasPrefix(full, "math/rand.") {
 			e.Nondet["rand:"+fi.Name] = full + " at " + p.pos(call)
